@@ -209,7 +209,8 @@ class State:
         self.solver = z3.Solver()
         self.solver.set("timeout", cfg.get("branch_timeout_ms", 2000))
         self.log: List[str] = []  # abstractions applied on this path (trusted skips, inlines, contract calls)
-        self.events_len = z3.IntVal(0)
+        self.events_len = z3.Int("evlen0")
+        self.events_len_entry = self.events_len
         self.events: List[tuple] = []  # python-side log of (guard, kind, args) for straight-line reasoning
         self.entry_heap: Dict[str, Any] = {}
         self.old_stack: list = []
@@ -218,6 +219,9 @@ class State:
         self.binder_asms: list = []  # stack of lists collecting typing assumptions under quantifier binders
         self.call_records: list = []  # contract-abstracted calls in order (for replay)
         self.fresh_base: list = []
+        self.epoch = z3.Int("epoch0")
+        self.epoch_entry = self.epoch
+        self.epoch_stack: list = []
         self.objs: list = []  # (term, ClassInfo) of object-typed values met so far (candidates when grounding forall_obj)
         self.entry_params: Dict[str, Any] = {}
 
@@ -243,10 +247,23 @@ class State:
                 snap.setdefault(key, a)
         return self.heap[key]
 
-    def setarr(self, key, a):
-        self.arr(key)
+    def setarr(self, key, a, ref=None):
+        cur = self.arr(key)
+        # ghost epoch: counts mutations of objects that existed at function entry (fresh objects do not count)
+        if ref is None and z3.is_app(a) and a.decl().kind() == z3.Z3_OP_STORE and z3.eq(a.arg(0), cur):
+            ref = a.arg(1)
+        if ref is not None:
+            self.epoch = smt.simp(z3.If(ref < self.alloc_entry, self.epoch + 1, self.epoch))
+        else:
+            self.epoch = smt.simp(self.epoch + 1)
         self.heap[key] = a
         self.touched.add(key)
+        if key in ("lel", "llen") and "f:$seq" in self.heap:
+            # ghost content identity of lists (see seq()): any mutation gives the list a new, unrelated identity
+            if ref is not None:
+                self.heap["f:$seq"] = z3.Store(self.heap["f:$seq"], ref, self.fresh("seqid", Val))
+            else:
+                self.heap["f:$seq"] = self.fresh("seqids", smt.ArrIV)
 
     def getf(self, ref, name):
         return z3.Select(self.arr("f:" + name), ref)
@@ -345,7 +362,7 @@ class State:
     def wt(self, ty: T.Ty, t):
         k = ty.k
         if k == "any" or k == "callable":
-            return None
+            return z3.Implies(smt.is_ref(t), smt.rid(t) < self.alloc)  # every reference read is to a live object
         if k == "int":
             return smt.is_int(t)
         if k == "bool":
@@ -407,7 +424,7 @@ def enum_value_sv(ci: ClassInfo, name) -> SV:
 
 # ------------------------------------------------------------------------------------------------ interpreter
 PURE_BUILTINS = {"len", "isinstance", "int", "str", "bool", "float", "min", "max", "abs", "old", "implies", "iff",
-                 "forall", "exists", "forall_obj", "exists_obj", "type", "hasattr", "getattr", "IPv4Address", "ite", "bit", "fresh"}
+                 "forall", "exists", "forall_obj", "exists_obj", "type", "hasattr", "getattr", "IPv4Address", "ite", "bit", "fresh", "seq", "epoch", "unchanged", "n_events"}
 
 
 class Interp:
@@ -769,7 +786,7 @@ class Interp:
         sz = z3.Select(st.arr("dsz"), r)
         # insertion order: a new key is appended at position dsz
         keys = z3.Select(st.arr("dkeys"), r)
-        st.setarr("dkeys", z3.Store(st.arr("dkeys"), r, z3.If(was, keys, z3.Store(keys, sz, k.t))))
+        st.setarr("dkeys", z3.Store(st.arr("dkeys"), r, z3.If(was, keys, z3.Store(keys, sz, k.t))), r)
         st.setarr("dsz", z3.Store(st.arr("dsz"), r, smt.simp(z3.If(was, sz, sz + 1))))
         st.setarr("dhas", z3.Store(st.arr("dhas"), r, z3.Store(has, k.t, True)))
         st.setarr("dget", z3.Store(st.arr("dget"), r, z3.Store(z3.Select(st.arr("dget"), r), k.t, v.t)))
@@ -1218,10 +1235,26 @@ class Interp:
             v = SV(st.getf(smt.rid(base.t), attr), aty)
             st.assume_wt(v)
             return v
-        if ty.k == "any":
+        if ty.k in ("any", "callable"):
+            # duck dispatch: a method name defined by exactly one class hierarchy identifies the receiver's class
+            roots = self.method_roots(attr)
+            if len(roots) == 1:
+                from .lib import isinstance_pred
+                ci = roots[0]
+                st.oblige("safety", f"receiver_is_{ci.name}.{attr}", isinstance_pred(self, base, PClass(ci)), line)
+                return self.getattr(SV(base.t, T.OBJ(ci)), attr, fr, node)
             st.oblige("safety", f"attr_of_nonobject.{attr}", smt.is_ref(base.t), line)
             return SV(st.getf(smt.rid(base.t), attr), T.ANY)
         raise Refuse(f"attribute {attr} of value of type {ty}")
+
+    _roots_cache: Dict[str, list] = {}
+
+    def method_roots(self, name):
+        if name not in Interp._roots_cache:
+            defs = [c for c in self.repo.all_classes() if name in c.methods]
+            roots = [c for c in defs if not any(b is not c and name in b.methods for b in c.mro()[1:])]
+            Interp._roots_cache[name] = roots
+        return Interp._roots_cache[name]
 
     def dispatch_class(self, base: SV, ci: ClassInfo, fr) -> ClassInfo:
         return ci
@@ -1321,6 +1354,25 @@ class Interp:
         if not isinstance(base, SV) or T.strip_opt(base.ty).k not in ("list", "any"):
             raise Refuse(f"slice of {getattr(base, 'ty', type(base).__name__)}")
         l = SV(base.t, T.LIST(self.list_elty(base)))
+        arr, n2 = self.slice_arrays(l, sl, fr)
+        sid = self.slice_seqid(l, sl, fr)
+        r = st.new_ref(LIST_CID)
+        st.heap["llen"] = z3.Store(st.arr("llen"), r, n2)
+        st.heap["lel"] = z3.Store(st.arr("lel"), r, arr)
+        st.heap["f:$seq"] = z3.Store(st.arr("f:$seq"), r, sid)
+        return SV(smt.mk_ref(r), l.ty)
+
+    def slice_seqid(self, l: SV, sl: ast.Slice, fr):
+        """Ghost content identity of l[lo:hi] = SLICE(identity of l, lo, hi) (hi = -1 when omitted)."""
+        st = self.st
+        F = z3.Function("SEQ_SLICE", Val, smt.I, smt.I, Val)
+        lo = self.num(self.ev(sl.lower, fr))[0] if sl.lower is not None else z3.IntVal(0)
+        hi = self.num(self.ev(sl.upper, fr))[0] if sl.upper is not None else z3.IntVal(-1)
+        return F(z3.Select(st.arr("f:$seq"), smt.rid(l.t)), smt.simp(lo), smt.simp(hi))
+
+    def slice_arrays(self, l: SV, sl: ast.Slice, fr):
+        """(elements array, length) of l[lo:hi] -- shared by code and by the spec form seq(x[a:b])."""
+        st = self.st
         n = self.list_len(l)
 
         def bound(e, dflt):
@@ -1332,12 +1384,9 @@ class Interp:
 
         lo = smt.simp(bound(sl.lower, z3.IntVal(0)))
         hi = smt.simp(bound(sl.upper, n))
-        r = st.new_ref(LIST_CID)
         i = z3.Int("i!sl")
         src = z3.Select(st.arr("lel"), smt.rid(l.t))
-        st.heap["llen"] = z3.Store(st.arr("llen"), r, smt.simp(z3.If(hi > lo, hi - lo, 0)))
-        st.heap["lel"] = z3.Store(st.arr("lel"), r, z3.Lambda([i], z3.Select(src, i + lo)))
-        return SV(smt.mk_ref(r), l.ty)
+        return z3.Lambda([i], z3.Select(src, i + lo)), smt.simp(z3.If(hi > lo, hi - lo, 0))
 
     # ---------------------------------------------------------------- comprehension / generator support
     def ev_GeneratorExp(self, node, fr):
